@@ -77,3 +77,23 @@ fn c15_local_name_hash_update_total_and_sticky() {
     kani::cover!(!was_empty && h.is_empty());
     kani::cover!(!h.is_empty());
 }
+
+/// Hashing is lossless or invalidates: from any valid (non-invalidated) hash, appending a hashable
+/// character either keeps every earlier character recoverable (new >> 5 == old) or invalidates the
+/// hash — it never silently drops the leading character, so a long custom name can never collide with a
+/// standard tag name (text-mode switches, void elements, the strict-mode guard all compare hashes).
+// @verif props=C03,C04,C15,C16 fns=LocalNameHash::update
+#[kani::proof]
+fn c03_tag_name_hash_never_drops_characters() {
+    let mut h = full_hash();
+    kani::assume(!h.is_empty());
+    let old = h.0;
+    let c: u8 = kani::any();
+    h.update(c);
+    if !h.is_empty() {
+        assert!(h.0 >> 5 == old, "[C03,C04,C16] appending a character keeps all earlier characters");
+        assert!(c.is_ascii_alphabetic() || (c >= b'1' && c <= b'6'));
+    }
+    kani::cover!(!h.is_empty() && old >> 54 != 0);
+    kani::cover!(h.is_empty() && c == b'a');
+}
